@@ -388,4 +388,40 @@ def external_rows(prog: Program) -> list[tuple[str, bool, str]]:
     loads, un, iters = scenario("loads", None, None, other="_pkg")
     rows.append(("external|external=None, private sibling", loads == ["_pkg"] and un == set(),
                  f"external=None, imports from `_pkg` (the package's private sibling): expected it to be loaded once and everything resolved; got loads {loads}, unresolved {sorted(un)}"))
+    # a private sibling package that star-imports back from the package that star-imports it: loading it (with its own wildcard expansion, as
+    # _post_load does) in the middle of the loop over the importing module's members must not break that loop
+    it.steps = 0
+    coll = it._construct(t.cc, [], {})
+    p_mod = t.new("Module", "p", filepath=t.PP("/s/p/__init__.py"))
+    t.setm(coll, "p", p_mod)
+    t.setm(p_mod, "_p/*", t.new("Alias", "_p/*", "_p", lineno=1, endlineno=1))
+    p_mod.attrs["imports"]["_p/*"] = "_p"
+    t.setm(p_mod, "x", t.new("Attribute", "x", lineno=2, endlineno=2))
+    ew = t.fns["expand_wildcards"]
+    loader = Obj(prog.cls(L), {"modules_collection": coll, "extensions": Obj(None, {"call": Native(lambda *_a, **_k: None)})}, label="loader")
+
+    def load_sibling(_i, self_, package, **_k):
+        m = t.new("Module", package, filepath=t.PP(f"/s/{package}/__init__.py"))
+        t.setm(m, "p/*", t.new("Alias", "p/*", "p", lineno=1, endlineno=1))
+        m.attrs["imports"]["p/*"] = "p"
+        t.setm(m, "y", t.new("Attribute", "y", lineno=2, endlineno=2))
+        t.setm(coll, package, m)
+        it.call(ew, self_, m)  # what _post_load does with a freshly loaded package
+        return m
+
+    it.stubs[f"{L}.load"] = load_sibling
+    try:
+        it.call(ew, loader, p_mod, external=None)
+        got_m: object = sorted(p_mod.attrs["members"])
+    except StepLimit:
+        got_m = "does not terminate within the step budget"
+    except (DepthLimit, RecursionError):
+        got_m = "unbounded recursion"
+    except Raised as r:
+        got_m = f"raises {r.exc}"
+    finally:
+        it.stubs.pop(f"{L}.load", None)
+    rows.append(("external|private sibling star-imports back", got_m == ["x", "y"],
+                 f"p/__init__.py: `from _p import *; x = 1`, _p/__init__.py: `from p import *; y = 1`, expand_wildcards(p) loading _p on the way: "
+                 f"members of p {got_m}; expected ['x', 'y'] and no exception"))
     return rows
